@@ -176,7 +176,7 @@ func c09Heartbeat(c *core.Ctx) { c09HeartbeatAs(c, "R2") }
 func c09HeartbeatAs(c *core.Ctx, R string) {
 	pkg := c.Prog.Pkg("ring")
 	type site struct {
-		fn, own         string
+		fn, own          string
 		tokensArg, stArg int
 	}
 	for _, s := range []site{{"Lifecycler.updateConsul", "recv.ID", 3, 4}, {"BasicLifecycler.updateInstance", "recv.cfg.ID", 3, 4}} {
